@@ -1,6 +1,7 @@
 //! Per-processor state for worker threads.
 
 use std::collections::VecDeque;
+#[cfg(not(folo_verif))]
 use std::sync::Mutex;
 use std::sync::atomic::{AtomicBool, AtomicU64, Ordering};
 
@@ -9,6 +10,8 @@ use events_once::EventLake;
 use plurality::MultiPool;
 
 use crate::ErasedTaskHandle;
+#[cfg(folo_verif)]
+use crate::verif_hook::Mutex;
 
 /// Everything a processor's worker threads share: the work they draw from, the storage that
 /// work lives in, and the signals that tell them to wake up or stop.
